@@ -41,7 +41,7 @@ for _sid in "C04-m C05-m C06-m C08-n C09-n C12-n C14-m C15-n C17-n C18-m C18-n C
     NOTES.setdefault(_sid, "seventh round; initially MISSED; caught after the check was strengthened (DESIGN.md 9.5, seventh round)")
 for _sid, _c in {"C01-m": "C11", "C02-m": "C06", "C02-n": "C01", "C06-n": "C13", "C09-m": "C11", "C11-n": "C06", "C13-m": "C14", "C16-m": "C11"}.items():
     NOTES.setdefault(_sid, "seventh round; MISSED by its own check; caught by %s (DESIGN.md 9.5, seventh round)" % _c)
-NOTES.setdefault("C16-n", "seventh round; NOT CAUGHT: needs SetPostChangeHook racing with AddNetworkInstance, outside C16's quantifier (histories, configurations - not schedules) (DESIGN.md 9.5)")
+NOTES.setdefault("C16-n", "seventh round; initially MISSED; caught after the check was strengthened (DESIGN.md 9.5, seventh round)")
 EXTRA_CHECKS = {"C06-i": "C13", "C13-i": "C14", "C13-l": "C14", "C01-m": "C11", "C02-m": "C06", "C02-n": "C01", "C06-n": "C13", "C09-m": "C11", "C11-n": "C06", "C13-m": "C14", "C16-m": "C11"}
 REBASED = {"C04-b", "C04-d", "C05-c", "C09-d", "C10-d", "C11-d"}
 ids = sys.argv[1:] or sorted(d for d in os.listdir(SEEDED) if os.path.isdir(os.path.join(SEEDED, d)))
